@@ -26,13 +26,25 @@ package backendpb
 //@   modifies nothing
 //@ func ctxWithAuthentication
 //@   modifies nothing
+// C16: what is uploaded for a device is that device's own record: its ID, its
+// count of queries (unchanged: counts are non-negative and fit 32 bits), and
+// the data of its latest query.
+// (the records being uploaded are owned by the refreshing goroutine - billstat's rely clause - hence `held *`)
 //@ func recordToProtobuf
-//@   modifies nothing
+//@   property C16
+//@   held *
+//@   requires r != nil && r.Queries >= 0
+//@   modifies tsTime
+//@   ensures a-devices-own-record-with-its-own-count: s != nil && fresh(s) && s.DeviceId == devID && s.Queries == r.Queries && s.ClientCountry == r.Country &&
+//@             s.Asn == r.ASN && s.Proto == r.Proto && tsTime[s.LastActivityTime] == r.Time
 
 //@ func (*BillStat).Upload
 //@   property C16
+//@   held *
 //@   requires b != nil && ref(b.client) != 0 && b.logger != nil
-//@   modifies sendFails, sendsOK
+//@   requires counts-are-not-negative: forall k agd.DeviceID :: has(records, k) && records[k] != nil ==> records[k].Queries >= 0
+//@   modifies sendFails, sendsOK, tsTime
+//@   atcall Send assert what-is-sent-for-a-device-is-its-own-count: arg1 != nil && arg1.DeviceId == deviceID && arg1.Queries == record.Queries
 //@   ensures a-failed-send-is-reported: sendFails > old(sendFails) ==> err != nil
 //@   ensures sendFails <= old(sendFails) + 1
 //@   loop 1 invariant sendFails == old(sendFails)
